@@ -12,7 +12,7 @@ import (
 
 func init() {
 	register("C43", []string{".", "./sstable/...", "./objstorage/...", "./internal/compact", "./internal/overlap", "./internal/manifest", "./wal", "./record", "./vfs/atomicfs", "./valsep"}, runC43)
-	propExplain["C43"] = "Decides error-discipline clauses of C43: (N1) wherever consumer code treats a nil result of a positioning call on an internal iterator as 'exhausted', every path from that nil edge to a return consults the iterator's Error() (or its consumed Close()) — an sstable iterator returns nil on a read error; (S1) after Finish or Abort was called on an objstorage.Writable no further method of it is reachable unless the variable was re-assigned; (E1) the error results of read and durability callees are never dropped; (O1) the user iterator's positioning methods short-circuit on a sticky error; (O2) a failed flush/compaction goes through the failure handler and never refreshes the read state. (E3) every engine function that classifies an error by identity (== a sentinel, record.IsInvalidRecord) receives it unwrapped: no function in the producers' static call trees (sticky error fields followed) returns a wrapped callee error. (E4) an error held in a local variable is known nil at every point where the result of another call is stored into it (an earlier failure is never replaced by a later success), module-wide. Does not decide result correctness under faults (behaviour)."
+	propExplain["C43"] = "Decides error-discipline clauses of C43: (N1) wherever consumer code treats a nil result of a positioning call on an internal iterator as 'exhausted', every path from that nil edge to a return consults the iterator's Error() (or its consumed Close()) — an sstable iterator returns nil on a read error; (S1) after Finish or Abort was called on an objstorage.Writable no further method of it is reachable unless the variable was re-assigned; (E1) the error results of read and durability callees are never dropped; (O1) the user iterator's positioning methods short-circuit on a sticky error; (O2) a failed flush/compaction goes through the failure handler and never refreshes the read state. (E3) every engine function that classifies an error by identity (== a sentinel, record.IsInvalidRecord) receives it unwrapped: no function in the producers' static call trees (sticky error fields followed) returns a wrapped callee error. (E4) an error held in a local variable is known nil at every point where the result of another call is stored into it (an earlier failure is never replaced by a later success), module-wide. (V1, shared with C10/C12) the object provider records a directory as synced only through the nil-error edge of that directory's Sync, and from a change counter read before it — a failed or unfinished sync reported as done lets a later Sync() return without syncing. Does not decide result correctness under faults (behaviour)."
 	propTechnique["C43"] = "SSA obligation-as-fact dataflow (nil-means-exhausted), typestate reachability, error-result consumption (ERRFLOW)"
 }
 
@@ -54,6 +54,7 @@ func runC43(c *Ctx) {
 	}
 	runC43N1(c)
 	runC43S1(c)
+	c12SyncWatermark(c, "C43.V1") // shared with C10/C12: a failed directory sync is never recorded as done
 	// E1: read + durability callees
 	readCallees := Or(
 		ImplCall(c.Iface("C43.E1", "objs.Readable"), "objstorage.Readable", "ReadAt"),
